@@ -496,6 +496,8 @@ def run(ctx):
     run_witnesses(ctx)
     from .. import marked
     marked.check_definitions(ctx)
+    from . import c05_blocks
+    c05_blocks.run(ctx, 12 if q else 300)
     check_inherit(ctx, 25 if q else 500)
     run_worlds(ctx, 50 if q else 1500, intermediate_private=False)
     run_worlds(ctx, 15 if q else 400, intermediate_private=True)
